@@ -2,4 +2,4 @@
 Require Import ExtrOcamlBasic.
 Require Import SquidV.Bytes SquidV.RwlockModel SquidV.SmpModel.
 Extraction "m_smp.ml" run_scen outcome_of prun pinit shm_write copy_from_shm chain_bytes call conc
-  lockShared lockExclusive unlockSharedAndSwitchToExclusive stopAppending run step g0 add_clients refetch all_workers.
+  lockShared lockExclusive unlockSharedAndSwitchToExclusive stopAppending run step g0 add_clients refetch all_workers find.
